@@ -1,0 +1,64 @@
+//go:build verif
+
+package quasigo
+
+// Verification hooks (build tag verif): read-only access to compiled functions,
+// the environment's symbol tables and the value stack.
+
+// VerifFuncDump is the observable content of a compiled function.
+type VerifFuncDump struct {
+	Code            []byte
+	Constants       []interface{}
+	IntConstants    []int
+	NumObjectParams int
+	NumIntParams    int
+	Name            string
+}
+
+// VerifDumpFunc returns a copy of fn's bytecode, constant pools and parameter counts.
+func VerifDumpFunc(fn *Func) VerifFuncDump {
+	return VerifFuncDump{
+		Code:            append([]byte(nil), fn.code...),
+		Constants:       append([]interface{}(nil), fn.constants...),
+		IntConstants:    append([]int(nil), fn.intConstants...),
+		NumObjectParams: fn.numObjectParams,
+		NumIntParams:    fn.numIntParams,
+		Name:            fn.name,
+	}
+}
+
+// VerifLookupNative reports the id bound to a native symbol.
+func VerifLookupNative(env *Env, qualifier, name string) (int, bool) {
+	id, ok := env.nameToNativeFuncID[funcKey{qualifier: qualifier, name: name}]
+	return int(id), ok
+}
+
+// VerifLookupFunc reports the id bound to a user function symbol.
+func VerifLookupFunc(env *Env, qualifier, name string) (int, bool) {
+	id, ok := env.nameToFuncID[funcKey{qualifier: qualifier, name: name}]
+	return int(id), ok
+}
+
+// VerifNativeNames lists the native symbols in id order.
+func VerifNativeNames(env *Env) []string {
+	out := make([]string, len(env.nativeFuncs))
+	for i, f := range env.nativeFuncs {
+		out[i] = f.name
+	}
+	return out
+}
+
+// VerifWrapNatives replaces every native function by wrap(id, name, original).
+func VerifWrapNatives(env *Env, wrap func(id int, name string, f func(*ValueStack)) func(*ValueStack)) {
+	for i := range env.nativeFuncs {
+		env.nativeFuncs[i].mappedFunc = wrap(i, env.nativeFuncs[i].name, env.nativeFuncs[i].mappedFunc)
+	}
+}
+
+// VerifStackSnapshot copies the current contents of the value stack (bottom first).
+func VerifStackSnapshot(s *ValueStack) (objects []interface{}, ints []int, variadicLen int) {
+	return append([]interface{}(nil), s.objects...), append([]int(nil), s.ints...), s.variadicLen
+}
+
+// VerifMaxFuncLocals is the per-frame local slot count.
+const VerifMaxFuncLocals = maxFuncLocals
